@@ -12,6 +12,9 @@ go build ./... > /tmp/cs_build.log 2>&1; BUILD=$?
 go test -vet=off -count=1 -run 'Demo|ZZ' ./$P > /tmp/cs_with.log 2>&1; WITH=$?
 rm -f $W/$P/zz_demo_test.go
 go test -vet=off -count=1 . ./instrument ./multi ./m3/... ./statsd ./prometheus ./internal/... > /tmp/cs_suite.log 2>&1; SUITE=$?
+# the suite has one load-sensitive allocation-count test (TestVerifyCachedTaggedScopesAlloc, flaky on the
+# unchanged tree when the machine is busy): a failing run is repeated once
+if [ $SUITE -ne 0 ]; then sleep 5; go test -vet=off -count=1 . ./instrument ./multi ./m3/... ./statsd ./prometheus ./internal/... > /tmp/cs_suite.log 2>&1; SUITE=$?; fi
 git checkout -q -- . && git clean -fdq
 echo "build=$BUILD suite=$SUITE demo_without=$WITHOUT demo_with=$WITH"
 if [ $BUILD -eq 0 ] && [ $SUITE -eq 0 ] && [ $WITHOUT -eq 0 ] && [ $WITH -ne 0 ]; then echo CONFIRMED; else echo NOT-CONFIRMED; fi
